@@ -272,6 +272,151 @@ def merged_order(log, writes, p):
 OWNER = {}
 
 
+# ---- (c) the storage glue: what is announced, when, and can the other workers load it? ----------------------
+
+class _Link:
+    """stands for the notifier of worker A; at the instant an id is announced (the earliest moment another worker can
+    look it up) it asks an independent reader of the shared database whether the event can be loaded"""
+
+    def __init__(self, visible):
+        self.visible = visible
+        self.announced = []          # (id, could another worker load it at that instant?)
+
+    async def notify(self, event):
+        self.announced.append((event.id, bool(self.visible(event.id))))
+
+
+def _announce_events(rng, n):
+    from lib import gen
+
+    evs = []
+    for i in range(n):
+        e = gen.gen_event(rng, authors=gen.AUTHORS[:2], kinds=[1, 1, 7, 20001, 30000, 10002], times=[gen.T0 + i])
+        e["tags"] = [t for t in e["tags"] if t and t[0] not in ("expiration", "e", "delegation")]
+        evs.append(e)
+    return evs
+
+
+def _judge_announcements(report, backend, schedule, submitted, link):
+    """every accepted event is announced exactly once, never a refused one, and at the instant of the announcement
+    another worker can load it (else that worker drops the id: its subscribers never see the event)"""
+    payload = {"kind": "announce", "backend": backend, "schedule": schedule, "events": [e for e, _ in submitted]}
+    count = {}
+    for i, vis in link.announced:
+        count[i] = count.get(i, 0) + 1
+    want = {}
+    kinds = {}
+    for ev, accepted in submitted:
+        want[ev["id"]] = want.get(ev["id"], 0) + (1 if accepted else 0)
+        kinds[ev["id"]] = ev["kind"]
+    for i, w in want.items():
+        n = count.get(i, 0)
+        eph = 20000 <= kinds[i] < 30000
+        if n != w:
+            report.property_failure("%s: an event (kind %d) accepted %d time(s) was announced to the other workers %d time(s) (%s)"
+                                    % (backend, kinds[i], w, n, schedule), payload, None)
+        for j, vis in link.announced:
+            if j == i and not vis:
+                cls = None
+                if backend == "kv":
+                    cls = "kv-ephemeral-not-loadable-by-peers" if eph else "kv-announced-before-written"
+                report.property_failure(
+                    "%s: the id of an accepted kind-%d event was announced to the other workers when they could not load it (%s): "
+                    "a worker that looks it up at once finds nothing and drops it" % (backend, kinds[i], schedule), payload, cls)
+    report.case(("announce", backend, schedule, repr([(e["id"][:6], a) for e, a in submitted])), nontrivial=True,
+                sample={"backend": backend, "schedule": schedule, "announced": len(link.announced)})
+    report.count("announce_cases_" + backend)
+
+
+def announce_case_sql(report, rng, tag, evs=None):
+    import shutil
+    import sqlite3
+    from lib.hist import SQLStore
+
+    d = common.scratch_dir("nrc20-")
+    path = "%s/workers.sqlite3" % d
+    st = SQLStore(url="sqlite+aiosqlite:///" + path)
+    try:
+        def visible(idhex):
+            c = sqlite3.connect(path, timeout=0.05)
+            try:
+                return c.execute("SELECT count(*) FROM events WHERE id = ?", (bytes.fromhex(idhex),)).fetchone()[0] == 1
+            except sqlite3.OperationalError:
+                return False
+            finally:
+                c.close()
+        link = _Link(visible)
+        st.storage.notifier = link
+        submitted = []
+        evs = evs or _announce_events(rng, rng.randint(2, 5))
+        for e in evs + [rng.choice(evs)]:             # the last one is a resubmission
+            res = st.add(dict(e))
+            st.run(_yield(3))
+            submitted.append((e, res["ok"]))
+        _judge_announcements(report, "sql", "sequential:%s" % tag, submitted, link)
+    finally:
+        st.close()
+        shutil.rmtree(d, ignore_errors=True)
+
+
+def announce_case_kv(report, rng, tag, contended, evs=None):
+    """the real writer thread; `contended` = another writer (a second worker process's writer thread, a bulk load) is inside
+    a write transaction while the event is submitted"""
+    import threading
+    from lib.hist import KVStore
+
+    st = KVStore()
+    kv = st.kv
+    try:
+        def visible(idhex):
+            with st.env.begin(buffers=True) as txn:
+                return bool(kv.get_event_data(txn, bytes.fromhex(idhex)))
+        link = _Link(visible)
+        st.storage.notifier = link
+        threading.Thread.start(st.writer)              # the real thread (KVStore leaves it unstarted)
+        submitted = []
+        evs = evs or _announce_events(rng, rng.randint(1, 3))
+        have, release = threading.Event(), threading.Event()
+
+        def other_writer():
+            txn = st.env.begin(write=True)
+            have.set()
+            release.wait(10)
+            txn.abort()
+
+        th = None
+        if contended:
+            th = threading.Thread(target=other_writer)
+            th.start()
+            have.wait(10)
+        for e in evs:
+            try:
+                event, changed = st.run(st.storage.add_event(dict(e)))
+            except Exception:
+                changed = False
+            st.run(_yield(5))
+            submitted.append((e, bool(changed)))
+        if not contended:
+            # without contention the announcement races with the writer thread: wait for the writer, judge only counts
+            st.run(st.storage.wait_for_writer())
+            link.announced = [(i, True if not (20000 <= [e for e in evs if e["id"] == i][0]["kind"] < 30000) else v)
+                              for i, v in link.announced]
+        else:
+            release.set()
+            th.join()
+            st.run(st.storage.wait_for_writer())
+        st.run(_yield(5))
+        _judge_announcements(report, "kv", ("another-writer-holds-the-lock:%s" if contended else "uncontended:%s") % tag, submitted, link)
+    finally:
+        try:
+            st.writer.running = False
+            st.writer.queue.put(None)
+            st.writer.join(5)
+        except Exception:
+            pass
+        st.close()
+
+
 def run(report, tier, seed):
     rng = random.Random(seed)
     drv = common.Driver()
@@ -281,13 +426,18 @@ def run(report, tier, seed):
         "client: every cut position of 1 id and every pair of cut positions (step 4..) of 2 ids, every 3-chunk split of "
         "16+32+16 style, random chunkings (sizes 1,2,3,7,16,31,33,48,64, random cuts, empty chunks) of 1-5 ids with "
         "boundary byte patterns; server: 2-3 origins, random chunkings and feeding orders, truncated tails "
-        "(disconnect mid-id); non-trivial = some chunk is not a multiple of 32 bytes / more than one origin")
+        "(disconnect mid-id); storage glue on both backends: sequences of accepted, ephemeral and resubmitted events through the "
+        "real add_event with the notifier replaced by a probe that, at the instant an id is announced, asks an independent reader "
+        "of the shared database whether the event can be loaded (SQLite file: a second connection; LMDB: a read transaction, "
+        "with the real writer thread, also while another writer holds the write lock); "
+        "non-trivial = some chunk is not a multiple of 32 bytes / more than one origin")
     report.assumptions += [
         "asyncio.StreamReader buffering (feed_data/readexactly) is the transport abstraction; TCP itself is trusted",
         "one write() per relayed unit reaches the peer stream contiguously (asyncio transport write is not interleaved)",
     ]
     for e in report.known:
-        replay_one(report, drv, loop, common.load_finding_replay(e))
+        if e.get("replay"):
+            replay_one(report, drv, loop, common.load_finding_replay(e))
     # exhaustive single-cut and double-cut positions
     i1, i2, i3 = bytes(range(1, 33)), bytes(range(101, 133)), bytes(range(201, 233))
     step = 1 if tier == "thorough" else 3
@@ -337,10 +487,23 @@ def run(report, tier, seed):
     report.case(("notify",), nontrivial=True)
     loop.close()
     drv.close()
+    # storage glue on both backends (their own event loops)
+    for k in range(4 if tier == "quick" else 40):
+        announce_case_sql(report, rng, k)
+        announce_case_kv(report, rng, k, contended=True)
+        announce_case_kv(report, rng, k, contended=False)
 
 
 def replay_one(report, drv, loop, r):
-    if r.get("kind") == "client" or "chunks" in r:
+    if r.get("kind") == "announce":
+        rng = random.Random(0)
+        evs = r["events"]
+        if r["backend"] == "sql":
+            announce_case_sql(report, rng, "replay", evs=evs)
+        else:
+            announce_case_kv(report, rng, "replay", contended=r["schedule"].startswith("another"), evs=evs)
+        asyncio.set_event_loop(loop)
+    elif r.get("kind") == "client" or "chunks" in r:
         chunks = [bytes.fromhex(c) for c in r["chunks"]]
         ids = [bytes.fromhex(c) for c in r.get("ids", [])] or [b"".join(chunks)[i:i + 32] for i in range(0, len(b"".join(chunks)) // 32 * 32, 32)]
         client_case(report, drv, loop, ids, chunks, "replay")
